@@ -29,6 +29,10 @@ pub struct Case {
     /// 0 Int32, 1 Double, 2 Byte, 3 Float, 4 String, 5 Boolean, 6 UInt64
     pub kind: u8,
     pub samples: Vec<Sample>,
+    /// what the subscriber asked for: 0 Both, 1 Source, 2 Server, 3 Neither (what is *returned* must not influence what the
+    /// filter *compares*)
+    #[serde(default)]
+    pub timestamps_to_return: u8,
 }
 
 const DEADBANDS: [f64; 7] = [0.0, 0.5, 1.0, 10.0, -1.0, f64::NAN, 2.5];
@@ -43,8 +47,9 @@ fn case() -> impl Strategy<Value = Case> {
         prop_oneof![6 => 0u8..4, 1 => Just(4u8), 1 => Just(5u8), 2 => Just(6u8)],
         prop_oneof![3 => Just(0u8), 3 => Just(1u8), 1 => 2u8..7],
         prop::collection::vec((0u8..STEPS.len() as u8, prop_oneof![4 => Just(0u8), 1 => 1u8..4], proptest::bool::weighted(0.3)).prop_map(|(step, status, new_timestamp)| Sample { step, status, new_timestamp }), 1..25),
+        prop_oneof![2 => Just(0u8), 1 => 1u8..4],
     )
-        .prop_map(|(trigger, deadband_type, deadband, kind, samples)| Case { trigger, deadband_type, deadband, kind, samples })
+        .prop_map(|(trigger, deadband_type, deadband, kind, samples, timestamps_to_return)| Case { trigger, deadband_type, deadband, kind, samples, timestamps_to_return })
 }
 
 thread_local! {
@@ -115,7 +120,7 @@ fn run(ctx: &Ctx, c: &Case) -> PResult {
     };
     ctx.class(&format!("deadband_type_{}", c.deadband_type));
     // acceptance, as CreateMonitoredItems decides it: the item can be built and its filter validates
-    let created = ctx.guard(|| MonitoredItemProbe::new(&t0, 1, TimestampsToReturn::Both, &state, &request).and_then(|i| with_space(|a| i.validate_filter(a)).map(|_| i)))?;
+    let created = ctx.guard(|| MonitoredItemProbe::new(&t0, 1, [TimestampsToReturn::Both, TimestampsToReturn::Source, TimestampsToReturn::Server, TimestampsToReturn::Neither][c.timestamps_to_return as usize % 4], &state, &request).and_then(|i| with_space(|a| i.validate_filter(a)).map(|_| i)))?;
     let mut item = match created {
         Ok(i) => i,
         Err(_) => {
@@ -267,7 +272,7 @@ fn run(ctx: &Ctx, c: &Case) -> PResult {
 pub fn def() -> PropDef {
     PropDef {
         id: "C25",
-        rule: "a data change filter (3 triggers x deadband type None / Absolute / Percent / undefined 3, 7 x deadband value 0, 0.5, 1, 2.5, 10, -1, NaN) on one real MonitoredItem, fed 1..25 samples of one value kind (Int32, Double, Byte, Float, String, Boolean, UInt64) whose value moves by 0, 1/4, 1/2, 1, 3/2, 2, 5/2, 10, 11, -1 deadbands, whose status switches among four codes and whose timestamps (source and server together) change or stay; reference: reported iff first, or status differs from the last reported sample, or (value triggers) the value differs / moved by more than the absolute deadband, or (timestamp trigger) the timestamp differs; then a probe: a value change of 1e7 and a status change must be reported by every accepted filter; non-trivial = at least one suppressed sample followed by a reported one; distinct = distinct case",
+        rule: "a data change filter (3 triggers x deadband type None / Absolute / Percent / undefined 3, 7 x deadband value 0, 0.5, 1, 2.5, 10, -1, NaN) on one real MonitoredItem created with TimestampsToReturn Both / Source / Server / Neither, fed 1..25 samples of one value kind (Int32, Double, Byte, Float, String, Boolean, UInt64) whose value moves by 0, 1/4, 1/2, 1, 3/2, 2, 5/2, 10, 11, -1 deadbands, whose status switches among four codes and whose timestamps (source and server together) change or stay; reference: reported iff first, or status differs from the last reported sample, or (value triggers) the value differs / moved by more than the absolute deadband, or (timestamp trigger) the timestamp differs; then a probe: a value change of 1e7 and a status change must be reported by every accepted filter; non-trivial = at least one suppressed sample followed by a reported one; distinct = distinct case",
         assumptions: &[
             "acceptance is what CreateMonitoredItems does: MonitoredItem::new followed by validate_filter",
             "the exact two-sided oracle is applied for deadband None and for Absolute with a non-negative finite value on numeric values; for non-numeric values under a deadband, and for any other accepted filter, only 'differs => reported' and the can-report probe are asserted",
